@@ -381,7 +381,7 @@ CHECKS["C09"] = {
             "pooled-objects: Acquire -> random calls -> Release -> Acquire for Request, Response, URI, Cookie. Non-trivial = the program changed the dump during the dirty request AND the probe got the pointer-identical context/object; distinct by FNV-64 of the case. concurrent: 8 goroutines interleave dirty and probe connections on one engine (race detector in the thorough tier). Three server configurations are drawn (default; default Date/Content-Type disabled; header-name normalising off + raw path options) with fresh baselines per configuration; probe requests include value-less keys and empty values in every position of query, form, cookie and header. Round 4: pooled objects: a climbing path (/.., /a/../..) before the random calls, then a second program applied both to the recycled and to a new object (dumps must agree) and a probe of a zero URI; context programs end in a panic inside a ForEachKey callback as a sixth ending, the probe writes a key (bounded); unit wiring-setters (known finding D60).",
     "assumptions": [
         "the dump is every exported zero-argument getter of those objects (enumerated by reflection, canonically rendered, Date masked) plus VisitAll enumerations, Params, Keys, Errors, exported flags, cookie/form/query/multipart lookups, and the probe's serialised response",
-        "connection- and engine-scoped state (conn, trace info object, binder/validator, HTMLRender, maxKeepBodySize) is excluded from the random programs; the TLS flag, the client-IP and form-value functions and Exile are exercised by the wiring-setters unit, where their survival is known finding D60; slice capacities are not observable and not compared",
+        "connection- and engine-scoped state (conn, trace info object, binder/validator, HTMLRender, maxKeepBodySize) is excluded from the random programs; the TLS flag, HTMLRender, the client-IP and form-value functions and Exile are exercised by the wiring-setters unit (the survival of the last three is known finding D60); slice capacities are not observable and not compared",
         "a probe that is not dispatched is accepted only when the dirty exchange demonstrably ended the connection",
     ],
     "level_text": "Random differential exploration: the full observable state a probe request sees on a recycled context (same connection or from the pool) must equal what the identical probe sees on a brand-new engine with a brand-new context; mutators and getters are enumerated by reflection so new setters/getters are covered without editing the harness.",
